@@ -558,6 +558,7 @@ func Normalise(cfg Config, voc *Vocab) (*NormResult, error) {
 		res.Overlay[k] = b
 	}
 	counter := 0
+	tailDone := map[string]bool{}
 	var prev map[string][]byte
 	dropped := func(pkgs []*packages.Package) {
 		res.Dropped = map[string]bool{}
@@ -600,9 +601,11 @@ func Normalise(cfg Config, voc *Vocab) (*NormResult, error) {
 					fname := pk.CompiledGoFiles[i]
 					src := in.srcOf(fname)
 					var edits []textEdit
-					if round == 0 {
+					if round <= 2 {
+						// (a method whose receiver is only used to call other such methods becomes convertible once those are)
 						edits = in.renameBackEdits(f, renames[rel])
-						if len(edits) == 0 {
+						if len(edits) == 0 && !tailDone[fname] {
+							tailDone[fname] = true
 							edits = in.tailDupEdits(f, src)
 						}
 					}
@@ -1343,6 +1346,39 @@ func (in *inliner) fileEdits(f *ast.File, fname string, src []byte) []textEdit {
 		return true
 	})
 	var edits []textEdit
+	// a call of a new helper in a loop condition: `for COND { … }` is `for { if !(COND) { break }; … }` (the post
+	// statement, if any, still runs before the test); the call then stands in an ordinary statement
+	ast.Inspect(f, func(n ast.Node) bool {
+		fs, ok := n.(*ast.ForStmt)
+		if !ok || fs.Cond == nil || fs.Body == nil {
+			return true
+		}
+		has := false
+		ast.Inspect(fs.Cond, func(x ast.Node) bool {
+			if c, isC := x.(*ast.CallExpr); isC {
+				if ci, _ := in.resolve(c); ci != nil && in.eligible(ci) == "" {
+					has = true
+				}
+			}
+			return !has
+		})
+		if !has {
+			return true
+		}
+		cond := in.text(fs.Cond)
+		if cond == "" {
+			return true
+		}
+		edits = append(edits, textEdit{off: in.offset(fs.Cond.Pos()), end: in.offset(fs.Cond.End()), text: ""})
+		off := in.offset(fs.Body.Lbrace) + 1
+		edits = append(edits, textEdit{off: off, end: off, text: " if !(" + cond + ") { break }" + in.lineDirective(fs.Body.Lbrace+1)})
+		where := in.pk.Fset.PositionFor(fs.Pos(), true)
+		in.res.Inlined = append(in.res.Inlined, fmt.Sprintf("%s: loop condition moved into the body (%s:%d)", in.rel, filepath.Base(where.Filename), where.Line))
+		return true
+	})
+	if len(edits) > 0 {
+		return edits
+	}
 	usedHost := map[ast.Stmt]bool{}
 	kept := map[types.Object]bool{}
 	addedImports := map[string]string{}
